@@ -89,7 +89,7 @@ impl Broker {
             final(self).inv_objects(), final(self).inv_services(), final(self).inv_object_services(), final(self).inv_ownership(),
             final(self).inv_calls(), final(self).inv_callers(), final(self).inv_conns(), final(self).inv_subs(),
             final(self).reg_winv(), final(self).reg_inv(),
-    //@ghost after `.add_function_call(serial);`
+    //@ghost before `if res.is_err() {`
         proof {
             let k = old(self).skey(req.service_cookie);
             assert(!old(self).calls().contains_key(serial));
